@@ -45,7 +45,8 @@ structure CacheOK (ds : Nat) (old : CacheRec) (nv : List (String × Json)) (prog
   file : ∀ path cmp fname args kwargs body k, Reach prog (.buildFile path cmp fname args kwargs body k) →
     ∀ p' rcmp rargs rkwargs subs ret cmpRes sf content,
       old.getFile path = some (.buildFile p' rcmp fname rargs rkwargs subs ret cmpRes false sf content) →
-      isEqual rargs args = true → isEqual rkwargs kwargs = true → VersionsOk old nv subs →
+      isEqual rargs args = true → isEqual rkwargs kwargs = true →
+      isEqual (verOf old.versions fname) (verOf nv fname) = true → VersionsOk old nv subs →
       Follows ds body (some path) subs (.ok ret) (some content) ∧
       FaithfulOps (fun _ _ _ => True) subs ∧
       (∃ m0, cmpRes = View.cmpResult rcmp content m0) ∧
@@ -53,7 +54,7 @@ structure CacheOK (ds : Nat) (old : CacheRec) (nv : List (String × Json)) (prog
   sub : ∀ fname args kwargs body k, Reach prog (.subbuild fname args kwargs body k) →
     ∀ f a kk subs ret sf,
       old.getSub (subKey fname args kwargs) = some (.subbuild f a kk subs ret false sf) →
-      VersionsOk old nv subs →
+      isEqual (verOf old.versions fname) (verOf nv fname) = true → VersionsOk old nv subs →
       ∃ wb, Follows ds body none subs (.ok ret) wb ∧ FaithfulOps (fun _ _ _ => True) subs
 
 theorem CacheOK.of_reach {ds old nv} {p c : Prog} (h : CacheOK ds old nv p) (hr : Reach p c) : CacheOK ds old nv c :=
@@ -239,7 +240,7 @@ theorem run_refines {ds : Nat} (prog : Prog) : ∀ (t : Option Path) (sp : SpecS
         rw [hk1old, hk1nv] at hvok
         rw [hk1old] at hget
         obtain ⟨hF, hfa, ⟨m0, hcr⟩, houtF⟩ := hok.file path cmp fname args kwargs body k (.here _) p' rcmp rargs rkwargs subs ret
-          cmpRes sf content hget hia hik hvok
+          cmpRes sf content hget hia hik (by rw [← hk1old, ← hk1nv]; exact hv) hvok
         subst hcr
         obtain ⟨hpne, bb, mm, hshelf, heqq⟩ := outputMatches_shelf k1 path rcmp content m0 hom
         have hbc : bb = content := houtF bb mm heqq
@@ -427,7 +428,8 @@ theorem run_refines {ds : Nat} (prog : Prog) : ∀ (t : Option Path) (sp : SpecS
         have hvok := versionsOk_of_replay subs k1 s2 hwfk1 hrep
         rw [hk1f.2.2.2.2.1, hk1f.2.2.2.2.2] at hvok
         rw [hk1f.2.2.2.2.1] at hget
-        obtain ⟨wb, hF, hfa⟩ := hok.sub fname args kwargs body k (.here _) f a kk subs ret sf hget hvok
+        obtain ⟨wb, hF, hfa⟩ := hok.sub fname args kwargs body k (.here _) f a kk subs ret sf hget
+          (by rw [← hk1f.2.2.2.2.1, ← hk1f.2.2.2.2.2]; exact hv) hvok
         have hsound := replay_sound hF s1 k1 s2 hsim1 hds1 hff1 hfs1 hwfk1 hpc1 (fun p hp => nomatch hp)
           (FaithfulOps.mono (fun _ _ _ _ => trivial) subs hfa) hrep
         obtain ⟨hrb, hsim2, hpc2, _⟩ := hsound
